@@ -143,6 +143,20 @@ def step (ds : DS) (ws : List String) : DS × String :=
         if kind == "brk" then refreshRetry fuel s (toWorld ds.dw) budget   -- subscription break: refreshRetry()
         else onEvent s (toWorld ds.dw) ev fuel budget
       ({ dw := fromWorld ds.dw w1, st := some s1 }, s!"ok acts={showActs acts} {showSt s1}")
+  | "evdur" :: kind :: r =>
+    match ds.st with
+    | none => (ds, "no-client")
+    | some s =>
+      let named := field r "named" == some "1"
+      let addr := ((field r "addr").bind String.toNat?).getD 0
+      let ev : Event := if kind == "sm" then .switchMaster named addr else if kind == "rbm" then .rebootMaster named addr else .other
+      let (s1, w1, acts, res) := eventDuringRefresh s (toWorld ds.dw) ev fuel budget
+      let rs := match res with | .ok => "ok" | .failed => "failed" | .noTarget => "notarget"
+      ({ dw := fromWorld ds.dw w1, st := some s1 }, s!"{rs} acts={showActs acts} {showSt s1}")
+  | "!evlost" :: r =>
+    -- the specification: after a refresh and a +switch-master / +reboot event for our master set have both
+    -- finished, primary traffic goes over a live connection to the address the event named
+    (ds, if field r "closed" == some "0" && field r "to" == field r "named" then "ok" else "bad")
   | "do" :: r =>
     match ds.st with
     | none => (ds, "no-client")
